@@ -19,8 +19,18 @@ sed "s#=> /repo#=> $REPO#" go.mod > "$MODFILE"; cp "$REPO/go.sum" "$OV/go.sum"
 if ! go build -modfile="$MODFILE" -tags verif -overlay "$OV/overlay.json" -o "$BIN" ./cmd/check 2>"$ROOT/bin/build.$$.log"; then
   echo "HARNESS ERROR: build failed" >&2; cat "$ROOT/bin/build.$$.log" >&2; rm -rf "$ROOT/bin/build.$$.log" "$OV"; exit 2
 fi
+RACEBIN=""
+if [ "$ID" = "C16" ] && [ "$TIER" = "thorough" ]; then
+  # supporting pass: the same thread bodies free-running under the race detector (no scheduler overlay)
+  RACEBIN="$ROOT/bin/check.race.$$"
+  if CGO_ENABLED=1 go build -modfile="$MODFILE" -race -tags verif -o "$RACEBIN" ./cmd/check 2>"$ROOT/bin/build.$$.log"; then
+    export VERIF_RACE_BIN="$RACEBIN"
+  else
+    echo "note: -race build unavailable, supporting race pass skipped" >&2; RACEBIN=""
+  fi
+fi
 rm -rf "$ROOT/bin/build.$$.log" "$OV"
 "$BIN" --tier "$TIER" "$@" "$ID"
 rc=$?
-rm -f "$BIN"
+rm -f "$BIN" $RACEBIN
 exit $rc
